@@ -324,14 +324,30 @@ def optimize_twice_body():
             raise Boom("first")
         return 1.0
 
+    import threading
+    lock = threading.Lock()
+    calls_a, calls_b = [], []
+
     def cb1(st, ft):
+        with lock:
+            calls_a.append(ft.number)
         if first_end == "stop-from-callback":
             st.stop()
+
+    def cb1b(st, ft):
+        with lock:
+            calls_b.append(ft.number)
     try:
-        study.optimize(obj1, n_trials=2, n_jobs=first_jobs, callbacks=[cb1])
+        study.optimize(obj1, n_trials=2, n_jobs=first_jobs, callbacks=[cb1, cb1b])
     except Boom:
         pass
-    n_before = len(study.get_trials(deepcopy=False))
+    first = study.get_trials(deepcopy=False)
+    n_before = len(first)
+    # every callback runs exactly once for every trial whose exception did not propagate, also when stop() was requested from the
+    # objective or from an earlier callback of the same trial
+    exp_first = [t.number for t in first if t.state == TrialState.COMPLETE]
+    assert sorted(calls_a) == exp_first, f"first call ended by {first_end}: first callback ran for {sorted(calls_a)}, trials that finished normally: {exp_first}"
+    assert sorted(calls_b) == exp_first, f"first call ended by {first_end}: second callback ran for {sorted(calls_b)}, trials that finished normally: {exp_first}"
     calls = []
 
     def obj2(trial):
@@ -340,8 +356,6 @@ def optimize_twice_body():
         if outcome2 == "caught":
             raise Caught("x")
         return 2.0
-    import threading
-    lock = threading.Lock()
 
     def cb2(st, ft):
         with lock:
